@@ -40,6 +40,8 @@ def tasks(tier, seed):
     P += families.select(dg, 12 if tier == "quick" else 200, seed)
     if tier != "quick":
         P += families.corpus(["lorentz.ode", "fitzhughnagumo.ode", "beeler_reuter_1977.ode"])
+    from .. import gen
+    P += gen.programs(tier, seed, 12, 150, "std")
     return [dict(p, opts={}) for p in P] + witness_tasks(PROP)
 
 
